@@ -139,9 +139,12 @@ def run(tier, seed, build):
         N = [-1.0, -0.5, 0.0]
         if 3 * pe["m"] * pe["n"] < 16:
             continue          # too few active amplitudes for the four eigenpairs requested (the wrappers' limits are C05/C06's subject)
-        la, oa = eig_lists(pe, N)
-        lb_, ob = eig_lists(swap_pd(pe), [N[1], N[0], N[2]])
-        lc, oc = eig_lists(scale_pd(pe, s, e, q), N)
+        try:
+            la, oa = eig_lists(pe, N)
+            lb_, ob = eig_lists(swap_pd(pe), [N[1], N[0], N[2]])
+            lc, oc = eig_lists(scale_pd(pe, s, e, q), N)
+        except ValueError:
+            continue          # fewer active amplitudes than eigenpairs requested: the dense wrapper's limit is C05's finding
         for nm, a, b, f in (("buckling, axis exchange", la, lb_, Fraction(1)), ("frequency, axis exchange", oa, ob, Fraction(1)),
                             ("buckling, similarity e*s", lc, la, e * s), ("frequency, similarity sqrt(e/q)/s", oc, oa, Fraction(3, 4))):
             groups.append([dict(ev="obs_equal", id=eid[0], a=a, b=b, factor=rat(f), tol=30)])
